@@ -24,6 +24,8 @@ C = {
          "trusted: TLC, tokio paused clock; the limit dynamics are not specified beyond the bounds", 'atomic-step'),
  'C05': ("spec/Retry.tla is the retry loop (attempt counter, predicate, per-request max_attempts, backoff schedule, token-bucket budget shared by several requests); TLC explores all outcome sequences and interleavings of 2 requests over a grid of configurations (max_attempts 0..3, both predicates, fixed/exponential backoff, budgets 0..2). TLC-generated behaviours and seeded random schedules run in the real RetryLayer under the simulator; every poll's inner starts, the instant of every retry (never before the backoff is over), the returned payload (serial number of the last attempt) and budget.balance() after every step must equal the spec's.",
          "trusted: TLC, tokio paused clock; integer-millisecond backoffs with multiplier 2", 'sim'),
+ 'C14': ("spec/Backoff.tla is the schedule state machine delay(0) = min(initial, cap), delay(a+1) = min(delay(a)*m, cap) with saturation; TLC checks monotonicity, the cap and where the schedule ends for large attempts over a grid. The real ExponentialBackoff, ExponentialRandomBackoff, FixedInterval and every ReconnectPolicy constructor are called for attempts 0..200 (10^4 thorough) densely and 2^k, 2^k+-1 up to usize::MAX over the grid initial {0,1,100 ms,1 s,a day} x multiplier {1,3/2,2,10} x cap {absent, below initial, 5000, two years} x jitter {0,1/2,1} plus seeded random configurations; every returned delay is validated against the machine (a panic has no matching action); a default ReconnectLayer and a RetryLayer run hundreds (10^4 thorough) of attempts against a dead backend under virtual time.",
+         "trusted: TLC; delays compared in whole units (ms or s) rounded to nearest, one unit of slack for the non-integer multiplier; jitter checked as an interval; all attempt numbers are sampled, not exhausted", 'sequential'),
 }
 def main():
     props = [json.loads(l) for l in open(os.path.join(ROOT, 'properties.jsonl'))]
